@@ -39,6 +39,9 @@ type c05Desc struct {
 	// Impatient goroutines call Ping with contexts of 50-800 us: most give up while waiting for the frame
 	// lock (which closes nothing), now and then one expires later and closes the connection.
 	Impatient int `json:"impatient_pingers,omitempty"`
+	// ImpatientWriters stream messages under contexts of 100 us - 3 ms; when one fails inside Write or Close
+	// (its message is then unfinished on the wire) the scenario is ended with CloseNow a few ms later.
+	ImpatientWriters int `json:"impatient_writers,omitempty"`
 }
 
 var c05Closers = []string{"none", "none", "Close", "CloseNow", "writer-context-cancelled", "reader-context-cancelled", "peer-close-frame", "peer-transport-close", "closeread-data"}
@@ -87,6 +90,13 @@ func c05Gen(tier string, seed int64) []fw.Case {
 		d.Cap = []int{0, 0, 0, 2000, 64}[rng.Intn(5)]
 		d.Perturb = int32(rng.Intn(3))
 		d.Porc = tier == "thorough" || i%4 == 0
+		if i%6 == 2 {
+			d.ImpatientWriters = 1 + rng.Intn(2)
+			if d.WriteMax == 0 {
+				d.WriteMax = 5
+			}
+			d.Closer = "none"
+		}
 		if i%3 == 1 {
 			d.Impatient = 1 + rng.Intn(3)
 			if d.WriteMax == 0 {
@@ -96,7 +106,98 @@ func c05Gen(tier string, seed int64) []fw.Case {
 		dd := d
 		cases = append(cases, fw.Case{Name: fmt.Sprintf("%s/%s/w=%d/p=%d/%s/%s", d.Role, paramsKey(d.Params), d.Writers, d.Pingers, d.Closer, d.Peer), Desc: dd, Run: func(r *fw.R) { c05Run(r, dd) }})
 	}
+	// targeted: an operation gives up while WAITING for the frame lock (which closes nothing); the message
+	// it belongs to stays unfinished and nothing else may start inside it
+	nl := tierPick(tier, 24, 400)
+	for i := 0; i < nl; i++ {
+		d := c05Desc{Seed: rng.U64(), Role: bothRoles[i%2], Params: allParams[(i/2)%len(allParams)], Thr: []int{0, 1 << 20}[i%2], Closer: "writer-gives-up-on-frame-lock", Peer: "raw", Writers: 2, PerW: 1}
+		dd := d
+		cases = append(cases, fw.Case{Name: fmt.Sprintf("%s/%s/frame-lock-timeout", d.Role, paramsKey(d.Params)), Desc: dd, Run: func(r *fw.R) { c05LockTimeout(r, dd) }})
+	}
 	return cases
+}
+
+// c05LockTimeout: W1 streams a message; a Ping holds the frame lock while blocked in the transport; W1's
+// Close gives up waiting for the lock (context cancelled; the connection stays open); W2 then writes.
+func c05LockTimeout(r *fw.R, d c05Desc) {
+	r.SetSample(d)
+	setPerturb(d.Seed, 0)
+	c, libEnd, peerEnd, err := libConn(d.Role, d.Params, d.Thr, xport.Plan{Capacity: 300}, xport.Plan{})
+	if err != nil {
+		r.Violate("C05/attach-failed", err.Error(), "")
+		return
+	}
+	defer c.CloseNow()
+	defer peerEnd.Close()
+	peer := newRawPeer(peerEnd, d.Role, d.Params, d.Seed)
+	peer.AutoPong = true
+	peer.Start()
+	base, cancelAll := context.WithTimeout(context.Background(), 60*time.Second)
+	defer cancelAll()
+	go func() {
+		for {
+			if _, _, err := c.Read(base); err != nil {
+				return
+			}
+		}
+	}()
+	what := fmt.Sprintf("%s %s thr=%d frame-lock-timeout", d.Role, paramsKey(d.Params), d.Thr)
+	ctx1, cancel1 := context.WithCancel(base)
+	defer cancel1()
+	w, err := c.Writer(ctx1, websocket.MessageBinary)
+	if err == nil {
+		_, err = w.Write(tagPayload(1, 0, 9000)[:6000])
+	}
+	if err != nil {
+		r.Violate("C05/write-failed", what+": "+err.Error(), "")
+		return
+	}
+	peer.Paused.Store(true)
+	pingDone := make(chan error, 1)
+	go func() { pingDone <- c.Ping(base) }()
+	// the ping now owns the frame lock and is stuck flushing into the full window
+	time.Sleep(15 * time.Millisecond)
+	closeDone := make(chan error, 1)
+	go func() { closeDone <- w.Close() }()
+	time.Sleep(5 * time.Millisecond)
+	cancel1()
+	var cerr error
+	select {
+	case cerr = <-closeDone:
+	case <-time.After(10 * time.Second):
+		r.Inconclusivef("%s: Writer.Close did not give up within 10 s of its context ending", what)
+		return
+	}
+	if cerr == nil {
+		r.Inconclusivef("%s: Writer.Close succeeded (the frame lock was not contended)", what)
+		return
+	}
+	stillOpen := !peerEnd.PeerClosed()
+	w2Done := make(chan error, 1)
+	ctx2, cancel2 := context.WithTimeout(base, 300*time.Millisecond)
+	defer cancel2()
+	go func() { w2Done <- c.Write(ctx2, websocket.MessageBinary, tagPayload(2, 0, 200)) }()
+	time.Sleep(5 * time.Millisecond)
+	peer.Paused.Store(false)
+	select {
+	case <-w2Done:
+	case <-time.After(10 * time.Second):
+	}
+	time.Sleep(10 * time.Millisecond)
+	c.CloseNow()
+	peer.WaitEnd(10 * time.Second)
+	conf := &wire.Conform{FromClient: d.Role == RoleClient, P: d.Params}
+	conf.Write(libEnd.Sent())
+	for _, v := range conf.Violations {
+		r.Violate("C05/nonconformant-stream/"+vioClass(v), fmt.Sprintf("%s (Writer.Close had failed with %q while waiting for the frame lock; connection still open: %v): %s", what, cerr, stillOpen, v), "frames: "+tail(string(conf.FrameLog), 100))
+	}
+	for i, m := range conf.Messages {
+		if _, _, err := checkTagged(m.Data); err != nil {
+			r.Violate("C05/mixed-or-corrupt-message/"+comprKey(m.Compressed), fmt.Sprintf("%s: message %d: %v", what, i, err), "")
+		}
+	}
+	r.Count("operations_that_gave_up_on_the_frame_lock", 1)
+	r.Key("%s/%s/frame-lock-timeout/open-after=%v", d.Role, paramsKey(d.Params), stillOpen)
 }
 
 // tagged payloads: 16 byte header + PRNG stream of (stream id, seq)
@@ -478,6 +579,45 @@ func c05Run(r *fw.R, d c05Desc) {
 			}
 		}(p)
 	}
+	for p := 0; p < d.ImpatientWriters; p++ {
+		wg.Add(1)
+		wgW.Add(1)
+		go func(p int) {
+			defer wg.Done()
+			defer wgW.Done()
+			ir := fw.NewRand(d.Seed + uint64(p)*104729)
+			for i := 0; i < 300; i++ {
+				ictx, ic := context.WithTimeout(ctx, time.Duration(100+ir.Intn(2900))*time.Microsecond)
+				payload := tagPayload(uint16(500+p), uint32(i), []int{64, 600, 5000, 9000}[ir.Intn(4)])
+				w, err := c.Writer(ictx, websocket.MessageBinary)
+				if err == nil {
+					_, err = w.Write(payload[:len(payload)/2])
+					if err == nil {
+						_, err = w.Write(payload[len(payload)/2:])
+					}
+					if err == nil {
+						err = w.Close()
+					}
+					if err != nil {
+						// the message may be unfinished on the wire; nothing else may start inside it
+						ic()
+						time.Sleep(time.Duration(3+ir.Intn(10)) * time.Millisecond)
+						c.CloseNow()
+						return
+					}
+				}
+				ic()
+				if err != nil {
+					probe, pc2 := context.WithTimeout(ctx, 50*time.Millisecond)
+					perr := c.Ping(probe)
+					pc2()
+					if perr != nil && !strings.Contains(perr.Error(), "failed to acquire lock") {
+						return
+					}
+				}
+			}
+		}(p)
+	}
 	// the reader
 	var got [][]byte
 	var lastPartial []byte
@@ -590,7 +730,7 @@ func c05Run(r *fw.R, d c05Desc) {
 		_ = v // C16's subject
 	}
 	r.Count("waiters_that_gave_up_on_the_frame_lock", impatientGaveUp.Load())
-	if d.Closer == "none" && d.Impatient == 0 {
+	if d.Closer == "none" && d.Impatient == 0 && d.ImpatientWriters == 0 {
 		if len(conf.Pending()) > 0 {
 			r.Violate("C05/truncated-frame", fmt.Sprintf("%s: the emitted stream ends inside a frame (%d pending bytes, %x) although nothing closed the connection before the final Close; frames: %s; readErr=%v", what, len(conf.Pending()), conf.Pending()[:min(12, len(conf.Pending()))], tail(string(conf.FrameLog), 60), readErr), "")
 		}
@@ -755,7 +895,7 @@ func c05Run(r *fw.R, d c05Desc) {
 		}
 		r.Count("reads_failed_mid_message", 1)
 	}
-	if d.Closer == "none" && d.Impatient == 0 && len(got) != len(sent) && d.Peer == "raw" {
+	if d.Closer == "none" && d.Impatient == 0 && d.ImpatientWriters == 0 && len(got) != len(sent) && d.Peer == "raw" {
 		// the peer's messages were all sent before the final Close: all must have been delivered... unless the
 		// close handshake started first; only a shortfall without any error is judged
 		if readErr == nil {
